@@ -256,6 +256,12 @@ func damagedStream(r *rand.Rand) []byte {
 		}
 	case 4:
 		fields = append(fields, [2]string{"WARC-Block-Digest", "sha1:AAAAAAAAAAAAAAAAAAAAAAAAAAAAAAAA"})
+	case 5: // a valid but non-canonical spelling of the length
+		for j := range fields {
+			if fields[j][0] == "Content-Length" {
+				fields[j][1] = "00" + fields[j][1]
+			}
+		}
 	}
 	rec := serializeRecord("1.1", fields, g.body, pick(r, []string{"\r\n", "\r\n", "\r\n", "\n"}))
 	if r.Intn(3) == 0 {
